@@ -39,6 +39,14 @@ CLAIMED.update({
     ref="3.20"),
 })
 
+CLAIMED.update({
+ "C07": dict(
+    technique="deterministic simulation: seeded operation-and-fault histories on one data-class instance (history machine), statement invariants evaluated after every operation, failure atomicity via before/after snapshots, delta-debugged replay",
+    level="seeded exploration of 6-24 step histories of every public mutator (setattr/delattr, item set/delete by name, alias and case variant, update, pop, popitem, setdefault, clear, |=, copy) with valid/convertible/invalid arguments and injected faults (leaf converter, property-setter hook at its n-th call, input-protocol failure of the mapping given to update/|=) on Schema and DataClass worlds; invariants I1-I7 of the statement checked after every step on every live instance",
+    note="public-API views only; property compared with its definition only while its dependencies are present; multi-key update may stop half-way (DESIGN 3.7); samples, does not enumerate",
+    ref="3.7"),
+})
+
 NA = {
  "C01": "pure function of (declaration, options, input): no schedule, history, fault or knob can change the verdict; sampling inputs would be property-based testing, not simulation",
  "C02": "biconditional over the value domain of each constraint; pure",
